@@ -32,6 +32,8 @@ type c06Op struct {
 	Path    int    `json:"path,omitempty"` // 0 base path, 1 explicit second directory, 2 unusable (parent is a regular file)
 	Chan    int    `json:"chan,omitempty"` // proj
 	Load    bool   `json:"load,omitempty"` // proj
+	Nsamp   int    `json:"nsamp,omitempty"` // lengths: ConfigurePulseLengths through the RPC layer (refused while writing)
+	Npre    int    `json:"npre,omitempty"`
 }
 
 type c06Case struct {
@@ -51,7 +53,7 @@ func c06Gen(t *rapid.T) c06Case {
 		c.Proj = append(c.Proj, rapid.IntRange(0, 2).Draw(t, "proj") != 0)
 	}
 	genOp := func() c06Op {
-		switch k := rapid.IntRange(0, 19).Draw(t, "opkind"); {
+		switch k := rapid.IntRange(0, 20).Draw(t, "opkind"); {
 		case k < 6:
 			return c06Op{Kind: "publish"}
 		case k < 10:
@@ -76,8 +78,11 @@ func c06Gen(t *rapid.T) c06Case {
 			return c06Op{Kind: "wc", Request: rapid.SampledFrom([]string{"UNPAUSE", "unpause", "UNPAUSE stateA", "UNPAUSE B2", "UNPAUSE"}).Draw(t, "unpause")}
 		case k < 18:
 			return c06Op{Kind: "wc", Request: rapid.SampledFrom([]string{"UNPAUSEx", "UNPAUSE ", "unpause ", "RESUME", "", "PAUS", "UNPAUSElabel", "STAR"}).Draw(t, "bad")}
-		default:
+		case k < 19:
 			return c06Op{Kind: "proj", Chan: rapid.IntRange(0, c.Nchan-1).Draw(t, "pchan"), Load: rapid.Bool().Draw(t, "pload")}
+		default:
+			ns := rapid.SampledFrom([]int{8, 10, 16, c.Nsamp}).Draw(t, "newnsamp")
+			return c06Op{Kind: "lengths", Nsamp: ns, Npre: rapid.IntRange(3, ns-2).Draw(t, "newnpre")}
 		}
 	}
 	if rapid.IntRange(0, 9).Draw(t, "skeleton") < 6 {
@@ -149,7 +154,9 @@ func c06Run1(c c06Case) (v vVerdict) {
 	defer os.RemoveAll(root)
 
 	vDrainRecords()
-	ds := &AnySource{nchan: c.Nchan, name: "verif"}
+	holder := newScripted(c.Nchan, time.Millisecond, 48) // only its embedded AnySource is used; it makes the source a DataSource for the RPC layer
+	ds := &holder.AnySource
+	ds.name = "verif"
 	ds.sampleRate = 1e6
 	ds.samplePeriod = time.Microsecond
 	ds.subframeDivisions = 4
@@ -171,16 +178,35 @@ func c06Run1(c c06Case) (v vVerdict) {
 	for i := range all {
 		all[i] = i
 	}
+	nsamp := c.Nsamp
 	auto := vTrigCfg{Auto: true, AutoDelayNs: int64(c.Nsamp) * 1000}
+	// the RPC layer in front of the source, for the requests whose guard lives there
+	sc := NewSourceControl()
+	sc.clientUpdates = clientMessageChan
+	sc.ActiveSource = holder
+	sc.isSourceActive = true
+	sc.status.Npresamp, sc.status.Nsamples = c.Npre, c.Nsamp
+	ds.sourceState = Active
+	hbStop := make(chan struct{})
+	defer close(hbStop)
+	go func() {
+		for {
+			select {
+			case <-sc.heartbeats:
+			case <-hbStop:
+				return
+			}
+		}
+	}()
 	if err := ds.ChangeTriggerState(&FullTriggerState{ChannelIndices: all, TriggerState: auto.state()}); err != nil {
 		return vFailf("prepare", "%v", err)
 	}
 	loadProj := func(ch int, load bool) {
 		if load {
-			P := mat.NewDense(2, c.Nsamp, nil)
-			B := mat.NewDense(c.Nsamp, 2, nil)
-			for i := 0; i < c.Nsamp; i++ {
-				P.Set(0, i, 1.0/float64(c.Nsamp))
+			P := mat.NewDense(2, nsamp, nil)
+			B := mat.NewDense(nsamp, 2, nil)
+			for i := 0; i < nsamp; i++ {
+				P.Set(0, i, 1.0/float64(nsamp))
 				P.Set(1, i, float64(i%3)-1)
 				B.Set(i, 0, 1)
 				B.Set(i, 1, float64(i%2))
@@ -199,7 +225,7 @@ func c06Run1(c c06Case) (v vVerdict) {
 	var cur *c06Run
 	usedDirs := map[string]bool{}
 	pos := 0
-	blockLen := 3 * c.Nsamp
+	blockLen := 3 * 16 // three records of the longest length in use
 	starts, pauses, startTypes := 0, 0, map[string]bool{}
 	publishesBetween := false
 	pauseBeforeLastStart := false
@@ -287,6 +313,21 @@ func c06Run1(c c06Case) (v vVerdict) {
 
 	for i, op := range c.Ops {
 		switch op.Kind {
+		case "lengths":
+			if op.Nsamp < 5 || op.Nsamp > 16 || op.Npre < 3 || op.Npre > op.Nsamp-2 {
+				continue
+			}
+			go func() { // the core loop's part: take the queued request, if any, and run it
+				select {
+				case f := <-sc.queuedRequests:
+					f()
+				case <-time.After(300 * time.Millisecond):
+				}
+			}()
+			var ok bool
+			if err := sc.ConfigurePulseLengths(SizeObject{Nsamp: op.Nsamp, Npre: op.Npre}, &ok); err == nil {
+				nsamp = op.Nsamp
+			}
 		case "proj":
 			if c06Snapshot(ds).Active {
 				continue // projectors are only changed while not writing
